@@ -342,3 +342,84 @@ Proof.
   revert b; induction a as [|x a IH]; intros [|y b]; cbn; auto.
   destruct (N.ltb_spec x y), (N.ltb_spec y x); auto; lia.
 Qed.
+
+(** * Sorted entries: the writer's order is the strictly increasing byte-wise order of the node addresses,
+    and it is canonical (independent of the order in which the map was traversed) *)
+Lemma lex_le_refl a : lex_le a a = true.
+Proof. induction a as [|x a IH]; cbn; [reflexivity|]. rewrite N.ltb_irrefl. exact IH. Qed.
+Lemma lex_le_antisym a b : lex_le a b = true -> lex_le b a = true -> a = b.
+Proof.
+  revert b; induction a as [|x a IH]; intros [|y b]; cbn; try discriminate; [reflexivity|].
+  destruct (N.ltb_spec x y), (N.ltb_spec y x); try discriminate; try lia.
+  intros H1 H2. assert (x = y) by lia. subst. f_equal. apply IH; assumption.
+Qed.
+Lemma lex_le_trans a b c : lex_le a b = true -> lex_le b c = true -> lex_le a c = true.
+Proof.
+  revert b c; induction a as [|x a IH]; intros [|y b] [|z c]; cbn; try discriminate; try reflexivity.
+  destruct (N.ltb_spec x y), (N.ltb_spec y x), (N.ltb_spec y z), (N.ltb_spec z y), (N.ltb_spec x z), (N.ltb_spec z x);
+    try discriminate; try reflexivity; try lia. apply IH.
+Qed.
+
+Definition ent_le (p q : list N * N) : bool := lex_le (fst p) (fst q).
+
+Section InsertionSort.
+  Context {A : Type} (le : A -> A -> bool).
+  Hypothesis le_total : forall a b, le a b = true \/ le b a = true.
+  Hypothesis le_trans : forall a b c, le a b = true -> le b c = true -> le a c = true.
+  Let R (a b : A) : Prop := le a b = true.
+
+  Lemma ins_sorted_ssorted x l : StronglySorted R l -> StronglySorted R (ins_sorted le x l).
+  Proof.
+    induction l as [|y r IH]; intros Hs; cbn.
+    - constructor; constructor.
+    - apply StronglySorted_inv in Hs as [Hr Hy]. destruct (le x y) eqn:E.
+      + constructor; [constructor; assumption|]. constructor; [exact E|].
+        eapply Forall_impl; [exact Hy|]. intros z Hz. exact (le_trans _ _ _ E Hz).
+      + constructor; [apply IH, Hr|]. rewrite ins_sorted_perm. constructor; [|exact Hy].
+        destruct (le_total x y) as [H|H]; [congruence|exact H].
+  Qed.
+  Lemma isort_ssorted l : StronglySorted R (isort le l).
+  Proof. induction l as [|x l IH]; cbn; [constructor|]. apply ins_sorted_ssorted, IH. Qed.
+End InsertionSort.
+
+Lemma isort_length {A} (le : A -> A -> bool) l : length (isort le l) = length l.
+Proof. apply Permutation_length, isort_perm. Qed.
+
+Definition ent_lt (p q : list N * N) : Prop := lex_le (fst p) (fst q) = true /\ fst p <> fst q.
+Global Instance ent_lt_antisym : AntiSymm (=) ent_lt.
+Proof. intros p q [H1 Hn] [H2 _]. exfalso. apply Hn. apply lex_le_antisym; assumption. Qed.
+
+Lemma ssorted_strict (l : list (list N * N)) :
+  StronglySorted (fun p q => ent_le p q = true) l -> NoDup (l.*1) -> StronglySorted ent_lt l.
+Proof.
+  induction l as [|p l IH]; intros Hs Hnd; [constructor|].
+  apply StronglySorted_inv in Hs as [Hl Hp]. cbn in Hnd. apply NoDup_cons in Hnd as [Hnin Hnd].
+  constructor; [apply IH; assumption|].
+  apply Forall_forall. intros q Hq. split; [exact (proj1 (Forall_forall _ _) Hp q Hq)|].
+  intros E. apply Hnin. rewrite E. apply elem_of_list_fmap. exists q. split; [reflexivity|exact Hq].
+Qed.
+
+Lemma isort_ent_ssorted (l : list (list N * N)) : NoDup (l.*1) -> StronglySorted ent_lt (isort ent_le l).
+Proof.
+  intros Hnd. apply ssorted_strict.
+  - apply isort_ssorted.
+    + intros a b. apply lex_le_total.
+    + intros a b c. apply lex_le_trans.
+  - rewrite (isort_perm ent_le l). exact Hnd.
+Qed.
+
+(** sorting is canonical on lists with distinct keys *)
+Lemma isort_ent_unique (l1 l2 : list (list N * N)) :
+  l1 ≡ₚ l2 -> NoDup (l1.*1) -> isort ent_le l1 = isort ent_le l2.
+Proof.
+  intros Hp Hnd. apply (StronglySorted_unique ent_lt).
+  - apply isort_ent_ssorted, Hnd.
+  - apply isort_ent_ssorted. rewrite <- Hp. exact Hnd.
+  - rewrite !isort_perm. exact Hp.
+Qed.
+
+Theorem ventries_sorted v : StronglySorted ent_lt (ventries v) /\ ventries v ≡ₚ map_to_list v.
+Proof. split; [apply isort_ent_ssorted, NoDup_fst_map_to_list|apply ventries_perm]. Qed.
+
+Lemma ventries_of_perm (es : list (list N * N)) (m : vv) : es ≡ₚ map_to_list m -> isort ent_le es = ventries m.
+Proof. intros Hp. apply isort_ent_unique; [exact Hp|]. rewrite Hp. apply NoDup_fst_map_to_list. Qed.
